@@ -1,5 +1,6 @@
 import CrdtModel.Spec.OrswotSys
 import CrdtModel.Spec.Lattice
+import CrdtModel.Spec.GListSys
 set_option linter.unusedSectionVars false
 /-!
 # C03 — state merge and op delivery are interchangeable (hybrid replication)
@@ -56,6 +57,9 @@ theorem lwwreg {ν : Type} [DecidableEq ν] (r0 : LWWReg ν α) {U K K' L : List
     (wf : UniqueMarkers r0 U) (h : (lwwSys r0).Reach U s K) (h' : (lwwSys r0).Reach U s' K')
     (ht : (lwwSys r0).Reach U t L) (e : ∀ o, o ∈ L ↔ (o ∈ K ∨ o ∈ K')) : s.merge s' = t :=
   merge_is_union (R := lwwSys r0) wf h h' ht e
+theorem glist {τ : Type} [LinOrd τ] {U K K' L : List (GListOp τ)} {s s' t : GList τ} (h : glistSys.Reach U s K)
+    (h' : glistSys.Reach U s' K') (ht : glistSys.Reach U t L) (e : ∀ o, o ∈ L ↔ (o ∈ K ∨ o ∈ K')) : s.merge s' = t :=
+  merge_is_union (R := glistSys) trivial h h' ht e
 end lattice
 
 end Crdt.C03
